@@ -217,11 +217,12 @@ static const char *c03_signature(int n, size_t j, const struct outcome *got, con
 
 /* probes for reset == new (C04c): each reads some persistent scanner field */
 static const char *probes[] = {"\"\\u00e9\"", "\"\\udc00\"", "1.5e3", "true", "'q'", "[1,[2,{\"a\":[]}]]", "{\"k\":\"v\"}", "/*c*/1", "-7", "null", "[", "\"x",
+                               "{\"\\u0041\":1}", "{\"\\udc00k\":[1.5]}", "7",
                                /* the quick tier stops here */
                                "\"A\"", "\"\\ud83d\\ude00\"", "12", "false", "NaN", "-Infinity", "\"\\n\"", "{\"a\"", "1e", "tru", "-", "\"\\u12", "\"\\ud83d",
                                "{\"a\":1,", "[[[[", " ", "]", "\"\\ud83d\\u0041\""};
 #define NPROBES_ALL (int)(sizeof probes / sizeof probes[0])
-#define NPROBES (mc_tier ? NPROBES_ALL : 12)
+#define NPROBES (mc_tier ? NPROBES_ALL : 15)
 static struct outcome probe_fresh[64];
 static uint64_t probe_fresh_dumps[64];
 static int probe_flags_done = -1, probe_depth_done = -1;
